@@ -20,7 +20,9 @@ WORDS = ["meeting", "Lunch", "x", "Café", "日本語", "naïve", "ok", "A B", "
          "de\u0301compose\u0301", "\u212bngstro\u0308m", "\u1112\u1161\u11ab", "\u0958\u2126"]
 CRIT = ["\\", "n", "N", ";", ",", ":", '"', "%", "2", "C", "\n", " ", "a", "%2C", "\\n", "\\;", "\\\\"]
 PARAM_POOL = ["LANGUAGE", "X-A", "ALTREP", "CN", "ROLE", "PARTSTAT", "X-LONG-PARAMETER-NAME", "DIR", "MEMBER", "RSVP", "FMTTYPE", "x-lower"]
-TEXT_PROPS = ["SUMMARY", "DESCRIPTION", "LOCATION", "COMMENT", "CONTACT", "X-VERIF", "X-WR-NOTE", "STATUS", "CLASS", "TRANSP"]
+TEXT_PROPS = ["SUMMARY", "DESCRIPTION", "LOCATION", "COMMENT", "CONTACT", "X-VERIF", "X-WR-NOTE", "STATUS", "CLASS", "TRANSP",
+              # names that a "natural" (numeric) ordering would tie or reorder: zero padding, digit runs
+              "X-ROOM-1", "X-ROOM-01", "X-ROOM-10", "X-ROOM-2"]
 
 
 class G:
